@@ -568,7 +568,10 @@ func (d dataSpec) bytes() []byte {
 }
 
 var gasClasses = []string{"roomy", "i-1", "i", "i+1", "x-1", "x", "x+1", "pool", "pool+1"}
-var prices = []*big.Int{big.NewInt(1), big.NewInt(0), big.NewInt(2), big.NewInt(1000000000)}
+// the last three make gas x price cross 2^64 with a price below 2^64, at 2^64 and above it (a fee
+// computed in 64-bit arithmetic wraps there)
+var prices = []*big.Int{big.NewInt(1), big.NewInt(0), big.NewInt(2), big.NewInt(1000000000),
+	new(big.Int).Lsh(big.NewInt(1), 50), new(big.Int).Sub(new(big.Int).Lsh(big.NewInt(1), 64), big.NewInt(1)), new(big.Int).Lsh(big.NewInt(1), 64)}
 var values = []*big.Int{big0, big.NewInt(1), bigValue}
 var balClasses = []string{"large", "zero", "need-1", "need", "need+1", "need+value-1", "need+value"}
 
